@@ -64,11 +64,12 @@ Proof.
     rewrite Hs1. cbn [quote_runes].
     pose proof (escape_of_matches_source r) as He.
     (* the case is split on the MODEL's lookup; the source's lookup and its ok follow *)
-    destruct (escape_of r) as [seq|]; injection He as Hlk Hok; rewrite <- Hlk, <- Hok.
-    + destruct (IH (i + w)%nat (q ++ [92%Z; Z.of_N seq]) (Z.of_nat w) fuel) as [w' Hw']; try lia.
-      exists w'. rewrite Hw'. rewrite <- app_assoc. reflexivity.
-    + destruct (IH (i + w)%nat (q ++ [Z.of_N r]) (Z.of_nat w) fuel) as [w' Hw']; try lia.
-      exists w'. rewrite Hw'. rewrite <- app_assoc. reflexivity.
+    destruct (escape_of r) as [seq|]; injection He as Hlk Hok; rewrite <- Hlk, <- Hok; cbv iota;
+      match goal with
+      | |- context [src_parse_quoteString_loop1 fuel _ _ ?q1 _ _] =>
+          destruct (IH (i + w)%nat q1 (Z.of_nat w) fuel) as [w' Hw']; try lia
+      end;
+      exists w'; rewrite Hw'; rewrite <- app_assoc; reflexivity.
 Qed.
 
 (* parse/quote.go quoteString, whole *)
